@@ -30,20 +30,20 @@ ENTRIES = [
          why="Buffer::push_slice must copy the re-inserted bytes before recording the entry: otherwise the recorded range holds stale buffer contents"),
     dict(props=["C07"], body=(B + "::buffer::Splitter", "split"), call=r"buffer::BlobIndex::write$", start=("agg", B + "::buffer::BlobEntryIndex"),
          why="every entry placed in a blob is written to that blob's index"),
-    dict(props=["C07", "C04"], body=(B + "::buffer::Splitter", "split"), call=r"Vec::<T, A>::push$", start=("agg", B + "::buffer::BlobEntryIndex"),
+    dict(props=["C07", "C04"], body=(B + "::buffer::Splitter", "split"), call=r"Vec::<T, A>::push$", arg_ty=r"buffer::BlobEntryIndex", start=("agg", B + "::buffer::BlobEntryIndex"),
          why="every entry placed in a blob is recorded in the part's `indices` (from which the in-memory index is updated after the write): otherwise the entry is on disk but never becomes visible"),
-    dict(props=["C07", "C04"], body=(B + "::buffer::Splitter", "split"), call=r"Vec::<T, A>::push$", start=("ok", r"buffer::Splitter::split_blob$|buffer::Splitter::seal_blob$"),
+    dict(props=["C07", "C04"], body=(B + "::buffer::Splitter", "split"), call=r"Vec::<T, A>::push$", arg_ty=r"buffer::BlobPart", start=("ok", r"buffer::Splitter::split_blob$|buffer::Splitter::seal_blob$"),
          why="every blob part produced by split_blob / seal_blob is appended to the batch: a dropped part is never written although its entries were accepted"),
     dict(props=["C07"], body=(B + "::buffer::Splitter", "split_blob"), call=r"buffer::BlobIndex::reset$", start="entry",
          why="starting a new blob resets the blob index on both arms: otherwise the next blob's index still lists the previous blob's entries"),
     dict(props=["C07"], body=(B + "::buffer::Splitter", "seal_blob"), call=r"buffer::BlobIndex::reset$", start=("true", r"buffer::BlobIndex::is_full$"),
          why="a blob sealed with a full index is closed: the index is reset before the next batch appends"),
-    dict(props=["C07"], body=(B + "::buffer::Splitter", "split_block"), call=r"Vec::<T, A>::push$", start="entry",
+    dict(props=["C07"], body=(B + "::buffer::Splitter", "split_block"), call=r"Vec::<T, A>::push$", arg_ty=r"buffer::Block\b", start="entry",
          why="moving on to the next block opens a new block in the batch"),
     # --- C04 / C01: the in-memory disk index
     dict(props=["C04", "C01"], body=(B + "::indexer::Indexer", "insert_inner"), call=r"VacantEntry<'a, K, V>::insert$|VacantEntry::<'a, K, V, A>::insert$|Entry.*Vacant.*insert$|VacantEntry.*::insert$", start=("arm", "Vacant"),
          why="a hash that is not yet indexed is inserted: otherwise a freshly written entry never becomes visible"),
-    dict(props=["C04"], body="re:^" + re.escape(B) + r"::flusher::Runner::submit_io_task::.*$", inner_call=r"indexer::Indexer::insert_batch$", call=r"Vec::<T, A>::push$", start=("agg", B + "::indexer::EntryAddress"),
+    dict(props=["C04"], body="re:^" + re.escape(B) + r"::flusher::Runner::submit_io_task::.*$", inner_call=r"indexer::Indexer::insert_batch$", call=r"Vec::<T, A>::push$", arg_ty=r"indexer::(Hashed)?EntryAddress", start=("agg", B + "::indexer::EntryAddress"),
          why="every written entry's address is collected for the index update that follows the block's writes"),
     # --- C01 / C04: recovery rebuilds the index from everything it scanned
     dict(props=["C04", "C01"], body="re:^" + re.escape(B) + r"::recover::RecoverRunner::run::\{closure#0\}$", call=r"indexer::Indexer::insert_batch$", start="entry_ok",
@@ -132,7 +132,8 @@ def _starts(F, f, e):
     if not srcs:
         raise AnchorMissing("must-call: start call /%s/ not found in %s" % (pat, f.short))
     if kind == "after":
-        return [b.idx for b in srcs], []
+        g = f.graph()
+        return [x for b in srcs for x in g[b.idx] if not f.blocks[x].cleanup], []
     out = []
     for c in srcs:
         if kind == "ok":
@@ -170,13 +171,19 @@ def run_for(chk, F, prop):
     def body(r, F):
         for e in ents:
             for f in _locate(F, e):
-                calls = [b.idx for b in f.calls_to(e["call"])]
+                calls = [b.idx for b in f.calls_to(e["call"])
+                         if not e.get("arg_ty") or any(a.place is not None and re.search(e["arg_ty"], f.local_ty(a.place.local) or "") for a in b.term.args)]
                 starts, ends = _starts(F, f, e)
                 if starts is None:
                     tg = f.calls_to(e["start"][1])
                     ok = bool(calls) and bool(tg) and all(any(f.dominates(c, t.idx) for c in calls) for t in tg)
                 else:
-                    ok = bool(calls) and all(f.must_pass(s, calls + ends) for s in starts)
+                    # a path that comes round to another start point (next loop iteration) without the call counts as missing it
+                    again = [b.idx for b in f.calls_to(e["start"][1])] if isinstance(e["start"], tuple) and e["start"][0] in ("ok", "after", "true", "false") else []
+                    ok = bool(calls)
+                    for s0 in starts:
+                        reach = f.reachable([s0], avoid=calls + ends)
+                        ok = ok and not (set(f.returns() + again) & reach)
                 what = "%s: %s from %s" % (f.short.rsplit("::", 2)[-2] + "::" + f.short.rsplit("::", 1)[-1] if "{closure" not in f.short else f.short.split("block::")[-1].split("foyer_memory::")[-1][:60],
                                            e["call"].split("|")[0].strip("$").rsplit("::", 1)[-1], e["start"] if isinstance(e["start"], str) else "%s(%s)" % (e["start"][0], e["start"][1].split("|")[0].strip("$").rsplit("::", 1)[-1]))
                 r.require(ok, f, what, e["why"], "a step every path needs is missing or conditional here — " + e["why"], ln=f.lo)
